@@ -122,8 +122,12 @@ def gen_facts():
         rc, out = sh(["go", "run", ".", REPO], cwd=fdir, env=env, timeout=300)
     if rc != 0:
         return False, out
+    marker = "-- ===FILE DoBody.lean===\n"
+    facts, _, dobody = out.partition(marker)
     with Lock("lake"):
-        write_if_changed(os.path.join(LEAN, "F1Verif", "Generated", "Facts.lean"), out)
+        write_if_changed(os.path.join(LEAN, "F1Verif", "Generated", "Facts.lean"), facts)
+        if dobody:
+            write_if_changed(os.path.join(LEAN, "F1Verif", "Generated", "DoBody.lean"), dobody)
     return True, ""
 
 
